@@ -1,7 +1,9 @@
 /-
   Four of the statements of WD.Props.C04 are false in the model as it stands.  Concrete witnesses:
 
-  * two `start` calls create two dispatcher threads, which then deliver entries out of order;
+  * two application threads that call `start()` at the same time (the second enters before the first has
+    started the dispatcher thread, so the `ident` guard lets both through) create two dispatcher threads,
+    which then deliver entries out of order;
   * a script of more than ~2000 calls exhausts `FUEL` in the middle of a step: the model then returns
     the intermediate state with the thread's `pc` unchanged, and the thread later re-executes the code
     after that (stale) `pc`.
@@ -12,9 +14,9 @@ open WD WD.Obs
 
 /-! ### `order_at_most_once`: two dispatchers -/
 
-def cex1_clients : List (List Op) := [[.schedule 0 0 0, .start, .start]]
+def cex1_clients : List (List Op) := [[.schedule 0 0 0, .start], [.start]]
 def cex1_emit : List (Wid × List Nat) := [(0, [1, 2])]
-def cex1_sched : List Nat := [0, 0, 0, 0, 0, 0, 1, 1, 1, 2, 4, 4, 2]
+def cex1_sched : List Nat := [0, 0, 2, 1, 2, 0, 3, 1, 5, 3, 4, 4, 5]
 
 theorem cex1_calls : callUids 0 (run (init cex1_clients [] cex1_emit) cex1_sched).hist = [2, 1] := by
   decide +kernel
